@@ -182,7 +182,7 @@ func TestCheck(t *testing.T) {
 			mk(scen{name: "seam-adjacent-keys-fwd", pre: []string{"0", "z"}, batches: []bspec{B("b"), B("c")}, readers: []string{"fwd"}}, 1, 3, 1),
 			mk(scen{name: "seam-2x2-disjoint-fwd-bwd", batches: []bspec{B("a", "c"), B("b", "d")}, readers: []string{"fwd-bwd"}}, 1, 2, 2),
 			mk(scen{name: "seam-3-committers-sync-mix", pre: []string{"m"}, batches: []bspec{S("a"), B("a", "b"), S("c")}, readers: []string{"bwd"}}, 1, 2, 2),
-			mk(scen{name: "seam-allocseqnum", batches: []bspec{B("a"), B("b")}, readers: []string{"fwd"}, allocSeq: true}, 1, 2, 1),
+			mk(scen{name: "seam-allocseqnum", batches: []bspec{B("a"), B("b")}, readers: []string{"fwd"}, allocSeq: true}, 0, 1, 1),
 		}
 		d1x.Run(t, c, sc)
 	})
